@@ -153,6 +153,34 @@ func TestVerifC02Child(t *testing.T) {
 			select {}
 		}
 	})
+	if spec.Mode == "sys" || spec.Mode == "systrace" {
+		// syskill stream (c02sys_test.go): the parent attaches strace while we
+		// wait, then the PUT is served without sockets so that every write
+		// call the tracer counts is a file write.
+		if spec.Mode == "systrace" {
+			verifSetHook(func(label string) { os.Stat("/.verif-point/" + label) })
+		} else {
+			verifSetHook(nil)
+		}
+		ioutil.WriteFile(filepath.Join(spec.Dir, "ready"), []byte(strconv.Itoa(os.Getpid())), 0644)
+		for {
+			if _, err := os.Stat(filepath.Join(spec.Dir, "go")); err == nil {
+				break
+			}
+			time.Sleep(time.Millisecond)
+		}
+		req := httptest.NewRequest("PUT", "/"+h, bytes.NewReader(data))
+		req.ContentLength = int64(len(data))
+		req.Header.Set("Authorization", "OAuth2 "+vkRootToken)
+		rec := &c02Recorder{ResponseRecorder: httptest.NewRecorder(), cn: make(chan bool)}
+		srv.handler.ServeHTTP(rec, req)
+		if rec.Code == 200 {
+			ioutil.WriteFile(filepath.Join(spec.Dir, "acked"), rec.Body.Bytes(), 0644)
+		} else {
+			ioutil.WriteFile(filepath.Join(spec.Dir, "refused"), []byte(fmt.Sprintf("%d %s", rec.Code, rec.Body.Bytes())), 0644)
+		}
+		return
+	}
 	r := hs.Do("PUT", "/"+h, data, vkRootToken)
 	if r.Status == 200 {
 		// the acknowledgement has been received by the client
@@ -592,6 +620,9 @@ func TestVerifC02(t *testing.T) {
 			os.RemoveAll(dir)
 		}
 	})
+
+	// ---- crash points at system-call level (strace injects SIGKILL)
+	c02SysStream(t, run, hs, newDir, &judgeMu, scenarios)
 
 	// ---- aborted uploads + concurrent clients (shared with C01): an
 	// acknowledged PUT must be retrievable whatever the handlers share
